@@ -96,6 +96,15 @@ def _run_one(args):
             if und:
                 return (v['name'], 'undecided-on-benign', und[:3], '')
             return (v['name'], 'fired', [('-', 'silent as expected', '')], '')
+        if isinstance(exp, str) and exp.startswith('UNDECIDED:'):
+            # an edit the family cannot judge: the named rule must say so (exit 2), and no rule may claim a violation
+            want = exp.split(':', 1)[1]
+            if viol:
+                return (v['name'], 'false-alarm', viol[:3], '')
+            hit = [x for x in und if x[0].startswith(want)]
+            if hit:
+                return (v['name'], 'fired', hit[:3], '')
+            return (v['name'], 'silent' if not und else 'other-rule', und[:3], '')
         exps = exp if isinstance(exp, (list, tuple)) else [exp]
         hit = [x for x in viol if any(x[0].startswith(e) for e in exps)]
         if hit:
